@@ -215,6 +215,9 @@ def run (ctx):
            "the slot is cleared only on paths that emitted the packet" if good else
            "slot is cleared on a path that did not emit its packet (packet lost)", (use.module, s), 'D3')
 
+  packet_in_rules(ctx, repo, spi)
+
+def packet_in_rules (ctx, repo, spi):
   # ---- D4 packet-in --------------------------------------------------------
   g = q.cfg_of(spi)
   trunc = []
